@@ -286,6 +286,12 @@ pub enum Wk {
     Recording,
     /// window writer whose positions start at the given base (prefix must be empty)
     Offset(usize),
+    /// the same, but an overwrite outside the window is silently dropped instead of refused
+    OffsetLenient(usize),
+    /// VecWriter created with spare capacity (a pre-sized buffer)
+    Presized(usize),
+    /// VecWriter that has been used for something else and cleared (a recycled buffer)
+    Reused,
 }
 
 pub enum EncOut {
@@ -310,9 +316,24 @@ pub enum Item<'a> {
 
 pub fn encode_items(prefix: &[u8], items: &[Item], wk: Wk) -> EncOut {
     match wk {
-        Wk::Vec => {
+        Wk::Vec | Wk::Presized(_) | Wk::Reused => {
             let e = catch(|| {
-                let mut w = VecWriter::new();
+                let mut w = match wk {
+                    Wk::Presized(cap) => VecWriter { data: Vec::with_capacity(cap) },
+                    Wk::Reused => {
+                        let mut w = VecWriter::new();
+                        // earlier use: a control message written field by field, then recycled
+                        w.write_u16_be(0xc802);
+                        for i in 0..40u16 {
+                            w.write_u16_be(i);
+                            w.write_u8(i as u8);
+                        }
+                        w.write_bytes(&[0xee; 300]);
+                        w.data.clear();
+                        w
+                    }
+                    _ => VecWriter::new(),
+                };
                 w.write_bytes(prefix);
                 for it in items {
                     match it {
@@ -328,9 +349,10 @@ pub fn encode_items(prefix: &[u8], items: &[Item], wk: Wk) -> EncOut {
                 Ended::StepBudget => unreachable!(),
             }
         }
-        Wk::Offset(base) => {
+        Wk::Offset(base) | Wk::OffsetLenient(base) => {
             let e = catch(|| {
                 let mut w = OffsetWriter::new(base);
+                w.lenient = matches!(wk, Wk::OffsetLenient(_));
                 for it in items {
                     match it {
                         Item::Msg(m) => m.write(&mut w),
